@@ -19,7 +19,7 @@ import re
 import time
 from pathlib import Path
 
-from vlib.core import BUILD, PY, VERIF, impl_env, sh
+from vlib.core import BUILD, PY, VERIF, impl_env, load_known, sh
 
 KINDS = ["assemble", "compute", "evaluate"]
 K1_SITE = "Internal:NotImplementedError@iteration_graph/outputs/_append.py:next_output"
@@ -187,7 +187,7 @@ def build_cases(chk) -> list[dict]:
             "id": len(cases), "assignment": assignment, "formats": [list(x) for x in fmts],
             "kinds_sets": kw.pop("kinds_sets", None) or kind_sets(chk.tier, chk.rng, False),
             "langs": ["c", "llvm"], "tm": True, "cli": True,
-            "graph": "first" if quick else "all", "graph_cap": 40,
+            "graph": "first" if quick else "all", "graph_cap": GRAPH_CAP,
         }
         c.update(kw)
         # rotate what the CLI is asked for
@@ -208,18 +208,20 @@ def build_cases(chk) -> list[dict]:
             own_gcc=bool(spec.get("own_gcc")), graph="all")
 
     # 1. format sweep
-    cap, sample = (16, 10) if quick else (2400, 700)
+    cap, sample = (32, 16) if quick else (2400, 500)
     for t in TEMPLATES:
         tensors = tensors_in(t)
         single_operand = len(tensors) <= 2
-        combos = format_combos(chk, tensors, cap if not (single_operand and not quick) else 2400,
-                               sample)
-        if quick and len(combos) > 16:
-            combos = combos[:16]
+        order3 = any(o >= 3 for _, o in tensors)
+        if quick:
+            combos = format_combos(chk, tensors, cap, 64 if (single_operand and order3) else sample)
+        else:
+            combos = format_combos(chk, tensors, cap, sample)
         for n, combo in enumerate(combos):
             wide = (not quick) and (n % 4 == 0)
             add(t, [(nm, f) for (nm, _), f in zip(tensors, combo)], origin="sweep",
-                kinds_sets=kind_sets(chk.tier, chk.rng, wide))
+                kinds_sets=kind_sets(chk.tier, chk.rng, wide),
+                tm_cffi=(not quick) and n % 400 == 7)   # a few real cffi builds (the published header)
 
     # 2. identifier spellings: one position at a time from the reserved / vocabulary lists, plus
     #    (output, operand) pairs from the vocabulary of generated-name fragments
@@ -237,8 +239,8 @@ def build_cases(chk) -> list[dict]:
     if quick:
         singles = chk.rng.sample(singles, 40)
         pairs = chk.rng.sample(pairs, 20)
-    elif len(pairs) > 900:
-        pairs = chk.rng.sample(pairs, 900)
+    elif len(pairs) > 500:
+        pairs = chk.rng.sample(pairs, 500)
     for tmpl, fm, sub in singles + pairs:
         names = dict(IDENT_DEFAULT)
         names.update(sub)
@@ -272,8 +274,10 @@ def run_workers(chk, cases: list[dict], call_timeout: int = 20, nworkers: int = 
     results: dict[int, dict] = {}
 
     def run_batch(batch, bound):
+        tmp = BUILD / "c08" / "tmp"
+        tmp.mkdir(parents=True, exist_ok=True)
         rc, out, err = chk.impl("c08_worker.py", [], input=json.dumps({"cases": batch, "call_timeout": call_timeout}),
-                                timeout=bound)
+                                timeout=bound, env={"TMPDIR": str(tmp)})
         got = {}
         last_started = None
         for line in out.splitlines():
@@ -313,40 +317,33 @@ def run_workers(chk, cases: list[dict], call_timeout: int = 20, nworkers: int = 
 
 
 # ------------------------------------------------------------------------------------- model
-PREAMBLE = """From Coq Require Import List String ZArith Bool Arith. Import ListNotations.
+GRAPH_CAP = 40
+
+PREAMBLE = """From Coq Require Import List String ZArith NArith Bool Arith. Import ListNotations.
 From TV Require Import model.Graphs model.OutputOrder.
 Open Scope string_scope. Open Scope list_scope.
-Inductive pyfirst := GFirst (g : graph) | GNone | GDiagonal | GSkip.
-Inductive pyall := GAll (l : list graph) | GAllDiagonal | GAllSkip.
-Definition ocode (o : outcome) : nat :=
+Definition ocode (o : outcome) : N :=
   match o with Code => 0 | Diagonal => 1 | NoKernel => 2 | BroadcastTarget => 3
-  | InternalAppendNextOutput => 4 | InternalWriteAssignment => 5 | IllFormed => 6 end.
-Definition b2n (b : bool) : nat := if b then 1 else 0.
-Definition best_eq (p : pyfirst) (b : best) : bool :=
-  match p, b with
-  | GFirst g, BGraph g' => graph_eqb g' g
-  | GNone, BNoKernel => true
-  | GDiagonal, BDiagonal => true
-  | _, _ => false
-  end.
-Definition all_eq (p : pyall) (r : res (list graph)) : bool :=
-  match p, r with
-  | GAll l, ROk l' => list_eqb graph_eqb l' l
-  | GAllDiagonal, RDiagonal => true
-  | _, _ => false
-  end.
-Definition nlist (r : res (list graph)) : nat := match r with ROk l => List.length l | _ => 0 end.
-Definition row (id : nat) (a : dassign) (fs : formats) (kss : list (list kind))
-               (pf : pyfirst) (pa : pyall) : list nat :=
+  | InternalAppendNextOutput => 4 | InternalWriteAssignment => 5 | IllFormed => 6 end%N.
+Definition b2n (b : bool) : N := if b then 1%N else 0%N.
+Definition grow (modes : list mode) (g : graph) : list N :=
+  [hash_graph g; b2n (graph_bad modes g); b2n (graph_bad_struct modes g)].
+(* [id; wf; tensor_method; status (0 list, 1 Diagonal, 2 IllFormed); number of graphs]
+   ++ outcome per kind list ++ the same after skipping bad graphs ++ after skipping structurally bad graphs
+   ++ (hash, bad, bad_struct) of the first graphs *)
+Definition row (id : N) (a : dassign) (fs : formats) (kss : list (list kind)) (cap : nat) : list N :=
   let r := to_iteration_graphs a fs in
   let rf := filter_good_r a fs r in
-  let fe := match pf with GSkip => 2 | _ => if best_eq pf (best_of r) then 1
-                                            else if best_eq pf (best_of rf) then 3 else 0 end in
-  let ae := match pa with GAllSkip => 2 | _ => if all_eq pa r then 1
-                                               else if all_eq pa rf then 3 else 0 end in
-  [id; b2n (wf_problem a fs); b2n (first_graph_bad_r a fs r); ocode (tensor_method_r a fs r); fe; ae;
-   nlist r] ++ map (fun ks => ocode (generate_r a fs r ks)) kss
-  ++ map (fun ks => ocode (generate_r a fs rf ks)) kss.
+  let rs := filter_good_struct_r a fs r in
+  let modes := match output_modes a fs with Some m => m | None => [] end in
+  let gs := match r with ROk l => l | _ => [] end in
+  [id; b2n (wf_problem a fs); ocode (tensor_method_r a fs r);
+   match r with ROk _ => 0 | RDiagonal => 1 | RIllFormed => 2 end; N.of_nat (List.length gs)]%N
+  ++ map (fun ks => ocode (generate_r a fs r ks)) kss
+  ++ map (fun ks => ocode (generate_r a fs rf ks)) kss
+  ++ map (fun ks => ocode (generate_r a fs rs ks)) kss
+  ++ flat_map (grow modes) (firstn cap gs).
+Open Scope N_scope.
 """
 
 OCODE = {"Code": 0, "Diagonal": 1, "NoKernel": 2, "BroadcastTarget": 3, K1_SITE: 4, WRITE_SITE: 5}
@@ -359,37 +356,75 @@ def ckinds(ks):
 
 
 def case_term(case: dict, r: dict) -> str:
-    pf = r.get("graph_first")
-    if not pf or pf.startswith("ERR:"):
-        pf = "GSkip"
-    pa = r.get("graphs_all")
-    if not pa or pa.startswith("ERR:"):
-        pa = "GAllSkip"
     kss = "[" + "; ".join(ckinds(ks) for ks in case["kinds_sets"]) + "]"
-    return f"(row {case['id']} {r['coq_assign']} {r['coq_formats']} {kss} {pf} {pa})"
+    return f"(row {case['id']}%N {r['coq_assign']} {r['coq_formats']} {kss} {GRAPH_CAP + 1}%nat)"
 
 
-def run_model(chk, cases: list[dict], results: dict[int, dict]) -> dict[int, list[int]]:
+class Row:
+    """Decoded model answer for one request."""
+
+    def __init__(self, nums: list[int], nk: int):
+        self.id, self.wf, self.tm, self.status, self.n = nums[0:5]
+        self.outcomes = nums[5:5 + nk]
+        self.filtered = nums[5 + nk:5 + 2 * nk]
+        self.filtered_struct = nums[5 + 2 * nk:5 + 3 * nk]
+        g = nums[5 + 3 * nk:]
+        self.graphs = [(g[i], g[i + 1], g[i + 2]) for i in range(0, len(g) - 2, 3)]  # (hash, bad, bad_struct)
+        self.bad = bool(self.graphs and self.graphs[0][1])
+        self.bad_struct = bool(self.graphs and self.graphs[0][2])
+
+    def first(self):
+        if self.status == 1:
+            return "Diagonal"
+        if self.status == 2:
+            return "IllFormed"
+        return self.graphs[0][0] if self.graphs else "NoKernel"
+
+    def first_of(self, which: int):
+        """first graph after skipping bad (1) / structurally bad (2) graphs"""
+        if self.status != 0:
+            return self.first()
+        rest = [h for h, *flags in self.graphs if not flags[which - 1]]
+        return rest[0] if rest else "NoKernel"
+
+    def hashes(self, which: int = 0):
+        if self.status == 1:
+            return "Diagonal"
+        return [h for h, *flags in self.graphs if which == 0 or not flags[which - 1]]
+
+    def brief(self):
+        return {"wf": self.wf, "first_graph_bad": self.bad, "first_graph_bad_struct": self.bad_struct,
+                "tensor_method": ONAME.get(self.tm), "graphs": self.n,
+                "outcomes": [ONAME.get(o) for o in self.outcomes]}
+
+
+def run_model(chk, cases: list[dict], results: dict[int, dict]) -> dict[int, "Row"]:
     todo = [c for c in cases if "coq_assign" in results.get(c["id"], {})]
     shards: list[list[dict]] = []
     cur: list[dict] = []
     size = 0
     for c in todo:
-        t = len(results[c["id"]].get("graphs_all") or "") + len(results[c["id"]].get("graph_first") or "") + 400
-        if cur and (len(cur) >= 300 or size + t > 1_500_000):
+        t = len(results[c["id"]]["coq_assign"]) + len(results[c["id"]]["coq_formats"]) + 100
+        if cur and (len(cur) >= 400 or size + t > 400_000):
             shards.append(cur)
             cur, size = [], 0
         cur.append(c)
         size += t
     if cur:
         shards.append(cur)
-    rows: dict[int, list[int]] = {}
+    rows: dict[int, Row] = {}
     failed: list[str] = []
+    by_id = {c["id"]: c for c in cases}
 
     def run_shard(arg):
         n, shard = arg
         body = PREAMBLE + "Eval vm_compute in [\n" + ";\n".join(case_term(c, results[c["id"]]) for c in shard) + "\n].\n"
-        ok, out = chk.coq_eval(f"c08_shard{n}", body, timeout=900)
+        name = f"c08_p{os.getpid()}_shard{n}"
+        ok, out = chk.coq_eval(name, body, timeout=900)
+        if ok:
+            for ext in (".v", ".vo", ".vok", ".vos", ".glob"):
+                (BUILD / "cases" / (name + ext)).unlink(missing_ok=True)
+            (BUILD / "cases" / ("." + name + ".aux")).unlink(missing_ok=True)
         return n, shard, ok, out
 
     with concurrent.futures.ThreadPoolExecutor(6) as ex:
@@ -399,8 +434,8 @@ def run_model(chk, cases: list[dict], results: dict[int, dict]) -> dict[int, lis
                 continue
             for m in re.finditer(r"\[([0-9; \n]+)\]", out):
                 nums = [int(x) for x in m.group(1).replace("\n", " ").split(";") if x.strip()]
-                if len(nums) >= 7:
-                    rows[nums[0]] = nums
+                if len(nums) >= 5 and nums[0] in by_id:
+                    rows[nums[0]] = Row(nums, len(by_id[nums[0]]["kinds_sets"]))
     if failed:
         chk.broken.append({"kind": "model-evaluation", "detail": failed[:3]})
     return rows
@@ -421,6 +456,8 @@ def property_failures(case: dict, r: dict) -> list[dict]:
         d.update(kw)
         fails.append(d)
 
+    if "skipped" in r:
+        return fails
     if "worker_failed" in r:
         bad("worker", r["worker_failed"], detail=r.get("stderr_tail", ""))
         return fails
@@ -472,7 +509,25 @@ def property_failures(case: dict, r: dict) -> list[dict]:
     return fails
 
 
+def fixed_ids() -> set[str]:
+    """Findings recorded as repaired in /verif/known_findings.json excuse nothing any more."""
+    out = set()
+    for f in load_known().get("fixed", []) or []:
+        if isinstance(f, dict) and f.get("id"):
+            out.add(f["id"])
+        elif isinstance(f, str):
+            out.update(re.findall(r"K-C\d+-\d+", f))
+    return out
+
+
 def classify(case: dict, r: dict, f: dict, row: list[int] | None) -> tuple[str | None, dict | None]:
+    fid, ren = classify0(case, r, f, row)
+    if fid is not None and fid in fixed_ids():
+        return None, None
+    return fid, ren
+
+
+def classify0(case: dict, r: dict, f: dict, row: list[int] | None) -> tuple[str | None, dict | None]:
     """-> (known finding id | None, rename map needed to confirm causality | None)"""
     idents = set(r.get("identifiers") or [])
     what = f["what"]
@@ -482,7 +537,7 @@ def classify(case: dict, r: dict, f: dict, row: list[int] | None) -> tuple[str |
     # K-C08-1: NotImplementedError at AppendOutput.next_output and the model agrees that the first
     # graph is bad (characterisation lemma C08_internal_iff_first_graph_bad)
     if what == K1_SITE:
-        if row is not None and row[2] == 1:
+        if row is not None and row.bad:
             return "K-C08-1", None
         return None, None
     # K-C08-3: bucket variable name collides with pos/crd array name of a tensor called "bucket"
@@ -601,6 +656,9 @@ def run(chk):
             else:
                 chk.known_finding(fid, describe(fid))
                 chk.count("known:" + fid)
+        if "skipped" in r:
+            chk.count("skipped-after-hangs")
+            continue
         # evidence counters
         chk.count("requests")
         chk.count("origin:" + c.get("origin", "?"))
@@ -622,12 +680,15 @@ def run(chk):
         # ---- correspondence (bookkeeping only; the oracle above decides violations)
         if row is None or "gen" not in r:
             continue
-        if row[1] != 1:
+        if row.wf != 1:
             corr_bad.append({"case": brief(c), "what": "model says the request is not well-formed"})
             continue
-        nk = len(c["kinds_sets"])
-        model_codes = row[7:7 + nk]
-        fixed_codes = row[7 + nk:7 + 2 * nk]
+        suspicious = row.bad_struct   # the model's first graph is one a repair of K-C08-1 would skip
+
+        def repaired(pc, i):
+            # the implementation no longer uses the graph the output builder cannot lower
+            return suspicious and pc is not None and (pc == row.filtered[i] or pc == row.filtered_struct[i])
+
         for i, ks in enumerate(c["kinds_sets"]):
             for lang in c["langs"]:
                 key = "+".join(ks) + "|" + lang
@@ -635,38 +696,52 @@ def run(chk):
                 if g is None:
                     continue
                 pc = py_code(g["outcome"])
-                mc = model_codes[i]
+                mc = row.outcomes[i]
                 if pc == mc:
                     chk.count("corr:outcome-equal")
                 elif name_related and pc is None:
                     chk.count("corr:skipped-name-finding")
-                elif mc == 4 and pc is not None and pc == fixed_codes[i]:
+                elif repaired(pc, i):
                     k1_fixed += 1
                 else:
                     corr_bad.append({"case": brief(c), "key": key, "model": ONAME.get(mc, mc), "implementation": g["outcome"]})
         if "tm" in r:
             pc = py_code(r["tm"]["outcome"])
-            if pc == row[3]:
+            if pc == row.tm:
                 chk.count("corr:tensor_method-equal")
             elif name_related and pc is None:
                 chk.count("corr:skipped-name-finding")
-            elif row[3] == 4 and pc in (0, 2):
+            elif suspicious and row.tm == 4 and pc in (0, 2):
                 k1_fixed += 1
             else:
-                corr_bad.append({"case": brief(c), "key": "tensor_method", "model": ONAME.get(row[3]), "implementation": r["tm"]["outcome"]})
-        if row[4] != 2:
+                corr_bad.append({"case": brief(c), "key": "tensor_method", "model": ONAME.get(row.tm), "implementation": r["tm"]["outcome"]})
+        pf = r.get("graph_first")
+        if pf is not None and not (isinstance(pf, str) and pf.startswith("ERR:")):
             n_graph_first += 1
-            if row[4] == 0:
-                corr_bad.append({"case": brief(c), "key": "first graph", "model": "differs", "implementation": (r.get("graph_first") or "")[:300]})
-            elif row[4] == 3:
+            if pf == row.first():
+                pass
+            elif suspicious and (pf in (row.first_of(1), row.first_of(2)) or pf in row.hashes()):
                 k1_fixed += 1
-        if row[5] != 2:
+            else:
+                corr_bad.append({"case": brief(c), "key": "first graph", "model": row.first(),
+                                 "implementation": pf, "implementation_text": r.get("graph_first_text")})
+        elif isinstance(pf, str):
+            corr_bad.append({"case": brief(c), "key": "first graph", "implementation": pf})
+        pa = r.get("graphs_all")
+        if pa is not None and not (isinstance(pa, str) and pa.startswith("ERR:")) and row.n <= GRAPH_CAP:
             n_graph_all += 1
-            if row[5] == 0:
-                corr_bad.append({"case": brief(c), "key": "list of graphs", "model": f"{row[6]} graphs", "implementation": f"{r.get('graphs_n')} graphs"})
-            elif row[5] == 3:
-                k1_fixed += 1
+            if pa == row.hashes():
+                pass
+            elif pa in (row.hashes(1), row.hashes(2)):
+                k1_fixed += 1      # the list is the model's list without the graphs a repair skips
+            else:
+                corr_bad.append({"case": brief(c), "key": "list of graphs", "model": f"{row.n} graphs",
+                                 "implementation": f"{r.get('graphs_n')} graphs"})
             chk.count("graphs-compared", max(r.get("graphs_n") or 0, 0))
+        elif isinstance(pa, str):
+            corr_bad.append({"case": brief(c), "key": "list of graphs", "implementation": pa})
+        elif r.get("graphs_n") == -1 or row.n > GRAPH_CAP:
+            chk.count("graph-lists-over-cap-skipped")
 
     chk.count("corr:first-graph-compared", n_graph_first)
     chk.count("corr:graph-lists-compared", n_graph_all)
@@ -706,7 +781,7 @@ def run(chk):
             f"{f['where']}: {f['what']}",
             {"input": replay_spec(c), "expected": "generated code accepted by its tool chain, or DiagonalAccessError / "
              "NoKernelFoundError / BroadcastTargetIndexError(tensor_method) / a Result-typed request error; CLI exit 0 or 1 "
-             "with a message", "actual": f, "model_row": rows.get(c["id"])},
+             "with a message", "actual": f, "model": rows[c["id"]].brief() if c["id"] in rows else None},
         )
     for cb in corr_bad[:5]:
         chk.broken.append({"kind": "correspondence", **cb})
@@ -722,7 +797,7 @@ def run(chk):
         if "gen" in r and len(chk.samples) < 8 and (c["id"] % 37 == 0 or c.get("origin", "").startswith("corpus")):
             chk.sample({"request": brief(c), "outcomes": {k: v["outcome"] for k, v in r["gen"].items()},
                         "tensor_method": r.get("tm", {}).get("outcome"), "cli_exit": r.get("cli", {}).get("exit_code"),
-                        "model_row[id,wf,bad,tm,first,all,n,outcomes...]": rows.get(c["id"])})
+                        "model": rows[c["id"]].brief() if c["id"] in rows else None})
 
 
 def check_findings_files(chk) -> bool:
@@ -780,6 +855,6 @@ def replay(chk, payload):
         print(("KNOWN " + fid if fid else "FAIL") + ": " + json.dumps(f)[:600])
         if fid is None:
             rc = 1
-    print("model row [id,wf,bad,tm,first,all,n,outcomes...]:", rows.get(0))
+    print("model:", rows[0].brief() if 0 in rows else None)
     print("outcomes:", {k: v["outcome"] for k, v in (r.get("gen") or {}).items()}, "tm:", r.get("tm"), "cli:", r.get("cli"))
     return rc
